@@ -35,6 +35,14 @@ def known_excl(init, bound, cmp_, side, pos):
     return '%s < %s%s' % (I, B, ' - 1' if incl else '')
 
 
+WIDE_MODES = ['CUDA', 'HIP', 'Metal']
+
+
+def wide_excl(init, bound):
+    """64-bit iterator, 32-bit operands, a negative iterator value is reachable: see known_findings.txt"""
+    return ('((long)(%s)) < 0 || ((long)(%s)) <= 0' % (init, bound), WIDE_MODES)
+
+
 NEG = 'launch_negative && nvis[0] == 0'   # the sequential loop is empty and the launcher computed a negative dimension
 
 
@@ -80,6 +88,8 @@ def programs(tier, seed):
                        desc='%s as @%s; |args|<=2^14, 1<=s<=%d, sequential trip count <= %d' % (h.replace('ROLE', role), role, SMAX[tier], U),
                        )
             p.excl_post = {'negative-trip-count': NEG}
+            if T == 'long':
+                p.excl = {'wide-iterator-negative': wide_excl(init, bound)}
             progs.append(p)
     # (3) multi-dimensional nests: index <-> dimension assignment
     NESTM = {'n2x2': ['Serial', 'CUDA', 'OpenCL'], 'n3x1': ['OpenMP', 'HIP', 'Metal'], 'n1x3': ['Serial', 'dpcpp', 'CUDA'], 'n2x1s': ['OpenMP', 'OpenCL', 'Metal']}
@@ -129,13 +139,8 @@ def run(ctx):
           dict(N=1, a=2, b=1, c=2, s=1), dict(N=4, a=2, b=1, c=0, s=1), dict(N=2, a=0, b=3, c=2, s=2), dict(N=-1, a=-2, b=-1, c=1, s=1)]
     qs, rejected = O.make_queries(ctx, progs, modes, O.visit_harness, known_keys=list(known), timeout=300 if thorough else 120, witness_vectors=wv, modes_of=modes_of)
     # re-confirm each listed finding on its designated program (still reproduces -> KNOWN-FINDING line)
-    if 'negative-trip-count' in known and not ctx.only:
-        kp = [p for p in progs if p.name.startswith('h0000')][:1]
-        kq, _ = O.make_queries(ctx, kp, ['CUDA'], O.visit_harness, known_keys=[], timeout=120)
-        kq = [q for q in kq]
-        for q in kq:
-            q.name += '/known'; q.expect = 'fail'; q.known = 'key=negative-trip-count ' + known['negative-trip-count']
-        qs += kq
+    if not ctx.only:
+        qs += O.known_reconfirm(ctx, progs, known, O.visit_harness)
     C.run_queries(ctx, qs)
     ctx.extra['programs'] = len(progs)
     ctx.extra['programs_rejected_by_occa'] = rejected[:40]
